@@ -47,6 +47,10 @@ const c15Day = 24 * time.Hour
 
 type c15Episode struct {
 	start time.Time
+	// a hold request of this episode was refused because the 48h bound was reached: the episode is not over (nothing
+	// was refreshed or released), so every further request of the holder must be refused too until the held snap is
+	// refreshed or the holder proceeds
+	refused bool
 }
 
 type c15World struct {
@@ -105,14 +109,24 @@ func (w *c15World) apply(ev c15Event) {
 			reached = true
 		}
 		if reached && err == nil {
-			w.problem("refuse: %s at +%s accepted although a bound was reached (episode start %v, last refresh %s ago)", ev, w.rel(w.now), w.epRel(ep), w.now.Sub(w.lastRefresh[ev.On]))
+			cls := "refuse"
+			if ep != nil && ep.refused {
+				// the class of the known finding: the implementation forgets the episode when it refuses
+				cls = "retry-after-refusal"
+			}
+			w.problem("%s: %s at +%s accepted although a bound was reached (episode start %v, last refresh %s ago)", cls, ev, w.rel(w.now), w.epRel(ep), w.now.Sub(w.lastRefresh[ev.On]))
 		}
 		if err != nil {
 			if _, ok := err.(*HoldError); !ok {
 				w.problem("error: %s returned unexpected error %v", ev, err)
 			}
-			// a refusal ends the episode (the implementation drops the record; the next accepted hold starts a new one)
-			delete(w.episodes, key)
+			// a refusal does not end the episode: the held snap was neither refreshed nor released, so the 48 hours
+			// keep counting from the first hold ("once a bound is reached further hold requests are refused")
+			if ep != nil && ev.By != ev.On {
+				ep.refused = true
+			} else {
+				delete(w.episodes, key)
+			}
 			// refused although no bound is reached and the duration is admissible?
 			admissible := ev.Dur == 0 || (ev.By == ev.On && ev.Dur <= c15MaxAny) || (ev.By != ev.On && ev.Dur <= c15MaxOther)
 			if !reached && admissible {
@@ -218,7 +232,11 @@ func (w *c15World) check() {
 					continue
 				}
 				if h != on && t.After(ep.start.Add(c15MaxOther)) {
-					w.problem("bound48h: %s reported held by %s at +%s, more than 48h after the episode started at +%s", on, h, w.rel(t), w.rel(ep.start))
+					cls := "bound48h"
+					if ep.refused {
+						cls = "retry-after-refusal"
+					}
+					w.problem("%s: %s reported held by %s at +%s, more than 48h after the episode started at +%s", cls, on, h, w.rel(t), w.rel(ep.start))
 				}
 				if t.After(w.lastRefresh[on].Add(c15MaxAny)) {
 					w.problem("bound90d: %s reported held by %s at +%s, more than 90 days after its last refresh (+%s)", on, h, w.rel(t), w.rel(w.lastRefresh[on]))
@@ -259,7 +277,7 @@ func (w *c15World) key() string {
 		parts = append(parts, fmt.Sprintf("lr(%s)=%s", n, w.lastRefresh[n].Sub(w.now)))
 	}
 	for k, ep := range w.episodes {
-		parts = append(parts, fmt.Sprintf("ep(%s)=%s", k, ep.start.Sub(w.now)))
+		parts = append(parts, fmt.Sprintf("ep(%s)=%s/%v", k, ep.start.Sub(w.now), ep.refused))
 	}
 	for n, u := range w.sys {
 		if !u.IsZero() {
@@ -317,7 +335,7 @@ func c15Run(path []c15Event) *c15World {
 
 func TestVerifC15(t *testing.T) {
 	r := eng.Start("C15", "model_checking", 300*time.Second, 15*time.Minute)
-	r.Assume("hold episode of (held, holder) = from the first accepted hold after a release (proceed), refusal, or refresh of the held snap, as the implementation's FirstHeld record defines it",
+	r.Assume("hold episode of (held, holder) = from the first accepted hold after a release (proceed) or a refresh of the held snap; a refused request does not end it (the snap was neither refreshed nor released)",
 		"bounds: 48h for other snaps, 90 days (95 days minus the 5-day buffer) after the held snap's last refresh for every gating snap",
 		"refresh(snap) is modelled as what the refresh path does: LastRefreshTime := now and resetGatingForRefreshed")
 	oldNow := timeNow
@@ -369,7 +387,11 @@ func TestVerifC15(t *testing.T) {
 				trans++
 				for _, p := range w.problems {
 					cls := strings.SplitN(p, ":", 2)[0]
-					r.Violation(cls+"|"+ev.Kind+"|"+fmt.Sprint(ev.Dur), p+" [path: "+fmt.Sprint(np)+"]", c15Case{Path: np, Msg: p})
+					vk := cls + "|" + ev.Kind + "|" + fmt.Sprint(ev.Dur)
+					if cls == "retry-after-refusal" {
+						vk = cls // one class key: the same defect whatever event made it visible
+					}
+					r.Violation(vk, p+" [path: "+fmt.Sprint(np)+"]", c15Case{Path: np, Msg: p})
 				}
 				if len(w.episodes) > 0 || len(w.sys) > 0 {
 					r.Add("transitions_with_active_hold", 1)
